@@ -8,6 +8,7 @@ evaluator (plain Python semantics + SQL NULL), wherever they occur in a tree:
                                        positive constant right operand, where Python's floor and SQL's truncation coincide)
   ['stripc', 'strip'|'lstrip'|'rstrip', e, chars]      e.strip(chars)
   ['tostr', e]                         str(e) of an int
+  ['boolfn', e]                        bool(e)   (only inside a truth test of a condition)
   ['tcmp', op, [a1, a2], [b1, b2]]     (a1, a2) op (b1, b2)      tuple comparison of non-nullable operands
   ['tsubin', neg, [e1, e2], Ent, ivar, [i1, i2], cond]           (e1, e2) [not] in ((i1, i2) for ivar in Ent if cond)
 and ['and', a, b] does not evaluate b when a is False (Python's short circuit; FALSE AND x is FALSE in SQL), which makes guarded
@@ -33,6 +34,8 @@ def install():
             return '%s.%s(%r)' % (render(e[2]), e[1], e[3])
         if k == 'tostr':
             return 'str(%s)' % render(e[1])
+        if k == 'boolfn':
+            return 'bool(%s)' % render(e[1])
         if k == 'tcmp':
             return '(%s) %s (%s)' % (', '.join(render(x) for x in e[2]), e[1], ', '.join(render(x) for x in e[3]))
         if k == 'tsubin':
@@ -58,6 +61,8 @@ def install():
         if k == 'tostr':
             a = ev(e[1], env)
             return None if a is None else str(a)
+        if k == 'boolfn':
+            return bool(ev(e[1], env))
         return _ev(e, env)
 
     def cond(e, env):
@@ -271,12 +276,14 @@ def extra_conditions(var, ent):
             b.map(lambda e: ['truth', e]),
             b.map(lambda e: ['not', ['truth', e]]),
             b.map(lambda e: ['not', ['truth', e]]),
+            b.map(lambda e: ['truth', ['boolfn', e]]),
+            ints.map(lambda e: ['truth', ['boolfn', e]]),     # (`not bool(<nullable>)` differs from Python on every dialect alike: not generated)
             st.tuples(eqop, b, b).map(lambda t: ['cmp', t[0], t[1], t[2]]),
             st.tuples(st.booleans(), b, st.lists(st.booleans().map(lambda v: ['const', v]), min_size=1, max_size=2)).map(
                 lambda t: ['in', t[0], t[1], t[2]]),
         ]
     atom = st.integers(0, len(atoms) - 1).flatmap(lambda i: atoms[i])
-    plain = qgen.conditions(var, ent, 1)
+    plain = qgen.conditions(var, ent, 1, inner=True)     # no collection aggregates / subqueries: those are C01's families
     return st.integers(0, 9).flatmap(lambda i: atom if i < 5 else (
         st.tuples(atom, plain).map(lambda t: ['and', t[0], t[1]]) if i < 7 else
         st.tuples(atom, plain).map(lambda t: ['or', t[0], t[1]]) if i < 9 else
@@ -288,12 +295,18 @@ def extra_queries(draw):
     """single-loop queries whose condition and/or result list use the dialect-sensitive families"""
     ent = draw(st.sampled_from(['A', 'B', 'B', 'C']))
     var = 'x'
-    shape = draw(st.sampled_from(['cond', 'cond', 'result', 'both']))
+    shape = draw(st.sampled_from(['cond', 'cond', 'result', 'both', 'strproj', 'strproj']))
     c = None
+    if shape == 'strproj':
+        # (pk, string expression[, string expression]): the dialect's string functions are observed directly, row by row
+        items = [['attr', var, 'id']] + [draw(extra_values(var, ent, 'str')) for i in range(draw(st.integers(1, 2)))]
+        if draw(st.integers(0, 3)) == 0:
+            c = draw(qgen.conditions(var, ent, 0, inner=True))
+        return {'loops': [[var, ['ent', ent]]], 'cond': c, 'result': ['exprs', items]}
     if shape in ('cond', 'both'):
         c = draw(extra_conditions(var, ent))
     elif draw(st.booleans()):
-        c = draw(qgen.conditions(var, ent, 1))
+        c = draw(qgen.conditions(var, ent, 1, inner=True))
     if shape == 'cond':
         result = ['obj', var]
     else:
